@@ -79,7 +79,8 @@ def check_function(ctx, A, ab, _a, t, r, care_sets, rng):
     # count
     models = sp.popcount(t) >> (sp.n - k)   # over the support
     for extra in range(4):
-        c = bdd.count(r, k + extra)
+        c = bdd.count(r, k + extra) if extra % 2 else \
+            bdd.count(u=r, nvars=k + extra)
         ctx.counters['count_results'] += 1
         if c != models << extra:
             raise Violation('count', 'wrong-count',
@@ -104,7 +105,12 @@ def check_function(ctx, A, ab, _a, t, r, care_sets, rng):
     for care in care_sets:
         cs = None if care is None else set(care)
         judged = True
-        ms = list(bdd.pick_iter(r, cs))
+        form = (t + len(care or ())) % 4
+        arg = cs if cs is None or form == 0 else (
+            list(cs) if form == 1 else frozenset(cs) if form == 2
+            else {v: 0 for v in cs}.keys())
+        ms = list(bdd.pick_iter(r, arg) if form % 2 else
+                  bdd.pick_iter(u=r, care_vars=arg))
         ctx.counters['pick_iter_results'] += 1
         want_vars = sup if cs is None else cs
         _judge_models(ctx, sp, t, ms, want_vars, exact=(cs is None),
